@@ -117,6 +117,10 @@ func (this *Node) iterate(iterator NodeIterator) {
 func (this *Node) walk(topic format.Topic, iterator NodeIterator) {
 	if topic == nil {
 		iterator(this.Data)
+		// "x/#" also matches its parent level "x"
+		if n, ok := this.Children[MWC]; ok {
+			iterator(n.Data)
+		}
 		return
 	}
 	topic, token := topic.Next()
